@@ -81,20 +81,22 @@ Proof.
   - intros m Hm'. apply Z.eqb_neq in Hm'. rewrite Hm'. reflexivity.
 Qed.
 
-(* move_agent: lands on an existing node; towards an unknown node the agent is already gone when KeyError is raised *)
+(* move_agent: lands on an existing node; towards an unknown node it is rejected with the state untouched *)
 Lemma nmove_cases nodes s a n0 n s' r :
   NAgree nodes s -> npos s a = Some n0 -> nmove nodes s a n = (s', r) ->
   NAgree nodes s' /\
   ((r = Ok [] /\ In n nodes /\ npos s' a = Some n /\ (forall b, b <> a -> npos s' b = npos s b)) \/
-   (r = Err E_KEY /\ ~ In n nodes /\ npos s' a = None /\ (forall b, b <> a -> npos s' b = npos s b))).
+   (r = Err E_KEY /\ ~ In n nodes /\ s' = s)).
 Proof.
-  intros Ha Hp Hm. unfold nmove in Hm.
-  destruct (nremove_ok nodes s a n0 Ha Hp) as (s1 & Hr & Ha1 & Hn1 & Hf1 & _).
-  rewrite Hr in Hm. cbn [nbind] in Hm.
-  destruct (nplace_cases nodes s1 a n s' r Ha1 Hn1 Hm) as [(Hr' & Ha' & Hin & Hp' & Hf' & _)|(Hs & Hr' & Hnin)].
-  - split; [exact Ha'|]. left. split; [exact Hr'|]. split; [exact Hin|]. split; [exact Hp'|].
-    intros b Hb. rewrite (Hf' b Hb). apply Hf1. exact Hb.
-  - subst s'. split; [exact Ha1|]. right. split; [exact Hr'|]. split; [exact Hnin|]. split; [exact Hn1|exact Hf1].
+  intros Ha Hp Hm. unfold nmove in Hm. destruct (is_node nodes n) eqn:En.
+  - destruct (nremove_ok nodes s a n0 Ha Hp) as (s1 & Hr & Ha1 & Hn1 & Hf1 & _).
+    rewrite Hr in Hm. cbn [nbind] in Hm.
+    destruct (nplace_cases nodes s1 a n s' r Ha1 Hn1 Hm) as [(Hr' & Ha' & Hin & Hp' & Hf' & _)|(Hs & Hr' & Hnin)].
+    + split; [exact Ha'|]. left. split; [exact Hr'|]. split; [exact Hin|]. split; [exact Hp'|].
+      intros b Hb. rewrite (Hf' b Hb). apply Hf1. exact Hb.
+    + exfalso. apply Hnin. apply is_node_In. exact En.
+  - inversion Hm. subst. split; [exact Ha|]. right. split; [reflexivity|]. split; [|reflexivity].
+    intros H. apply is_node_In in H. congruence.
 Qed.
 
 Lemma nplaced_true s a : nplaced s a = true -> exists n, npos s a = Some n.
@@ -174,7 +176,7 @@ Qed.
 Lemma net_move_step nodes s a n0 n s' r :
   NAgree nodes s -> npos s a = Some n0 -> nstep nodes s (NMove a n) = (s', r) ->
   (r = Ok [] /\ In n nodes /\ npos s' a = Some n /\ (forall b, b <> a -> npos s' b = npos s b)) \/
-  (r = Err E_KEY /\ ~ In n nodes /\ npos s' a = None /\ (forall b, b <> a -> npos s' b = npos s b)).
+  (r = Err E_KEY /\ ~ In n nodes /\ s' = s).
 Proof.
   intros Ha Hp Hst. cbn [nstep] in Hst. unfold nplaced in Hst. rewrite Hp in Hst.
   apply (nmove_cases nodes s a n0 n s' r Ha Hp Hst).
@@ -197,20 +199,42 @@ Lemma net_place_move nodes s a :
      (s' = s /\ r = Err E_KEY /\ ~ In n nodes)) /\
   (forall n0 n s' r, npos s a = Some n0 -> nstep nodes s (NMove a n) = (s', r) ->
      (r = Ok [] /\ In n nodes /\ npos s' a = Some n /\ (forall b, b <> a -> npos s' b = npos s b)) \/
-     (r = Err E_KEY /\ ~ In n nodes /\ npos s' a = None /\ (forall b, b <> a -> npos s' b = npos s b))).
+     (r = Err E_KEY /\ ~ In n nodes /\ s' = s)).
 Proof.
   intros Ha. split.
   - intros n s' r. exact (net_place_step nodes s a n s' r Ha).
   - intros n0 n s' r. exact (net_move_step nodes s a n0 n s' r Ha).
 Qed.
 
-(* C18: NetworkGrid.move_agent towards a node that does not exist raises KeyError AFTER the agent has been removed *)
-Lemma net_move_unknown_node_not_atomic :
-  exists nodes s a n s' e,
-    NAgree nodes s /\ nstep nodes s (NMove a n) = (s', Err e) /\
-    nobs_state nodes 1 s' <> nobs_state nodes 1 s /\ npos s a = Some 0 /\ npos s' a = None.
+(* ================================================================== C18: the NetworkGrid sites
+   place_agent / move_agent towards a node that is not in the graph (KeyError): a NetGrid step that returns an
+   error leaves the state LITERALLY unchanged - for every state satisfying the invariant, hence at every point of
+   every history - and so every continuation behaves as if the call had not been made *)
+Lemma C18_networkgrid_atomic nodes s o s' e :
+  NAgree nodes s -> nstep nodes s o = (s', Err e) -> s' = s.
 Proof.
-  exists [0; 1], (nrun [0; 1] ninit [NPlace 1 0]), 1, 7. eexists. exists E_KEY.
-  split; [apply net_agree_history|]. split; [vm_compute; reflexivity|].
-  split; [vm_compute; discriminate|]. split; reflexivity.
+  intros Ha Hst. destruct o; cbn [nstep] in Hst.
+  - destruct (nplaced s a) eqn:E; [discriminate|]. apply nplaced_false in E.
+    destruct (nplace_cases nodes s a n s' (Err e) Ha E Hst) as [(Hr & _)|(Hs & _)]; [discriminate|exact Hs].
+  - destruct (nplaced s a) eqn:E; [|discriminate]. apply nplaced_true in E. destruct E as [n Hp].
+    destruct (nremove_ok nodes s a n Ha Hp) as (s1 & Hr & _). rewrite Hr in Hst. discriminate.
+  - destruct (nplaced s a) eqn:E; [|discriminate]. apply nplaced_true in E. destruct E as [n0 Hp].
+    destruct (nmove_cases nodes s a n0 n s' (Err e) Ha Hp Hst) as [_ [(Hr & _)|(_ & _ & Hs)]]; [discriminate|exact Hs].
+  - destruct (is_node nodes n); discriminate.
+  - destruct (forallb (is_node nodes) l); discriminate.
+  - discriminate.
+  - discriminate.
 Qed.
+
+Lemma C18_networkgrid_atomic_obs nodes n s o s' e :
+  NAgree nodes s -> nstep nodes s o = (s', Err e) -> nobs_state nodes n s' = nobs_state nodes n s.
+Proof. intros Ha Hst. rewrite (C18_networkgrid_atomic nodes s o s' e Ha Hst). reflexivity. Qed.
+
+Lemma C18_networkgrid_atomic_continue nodes n s o s' e rest :
+  NAgree nodes s -> nstep nodes s o = (s', Err e) ->
+  nrun_obs nodes n s' rest = nrun_obs nodes n s rest /\ nrun nodes s' rest = nrun nodes s rest.
+Proof. intros Ha Hst. rewrite (C18_networkgrid_atomic nodes s o s' e Ha Hst). split; reflexivity. Qed.
+
+Lemma C18_networkgrid_atomic_history nodes ops o s' e :
+  nstep nodes (nrun nodes ninit ops) o = (s', Err e) -> s' = nrun nodes ninit ops.
+Proof. apply C18_networkgrid_atomic. apply net_agree_history. Qed.
